@@ -157,7 +157,10 @@ fn main() {
 			h.go(&sys, &Limits::depth(if thorough { 8 } else { 8 }).wall_secs(60), true);
 		}
 		// (b) every length, flat base with deviations
-		let ns: Vec<usize> = (min..=maxn).collect();
+		let mut ns: Vec<usize> = (min..=maxn).collect();
+		if std::env::var("VERIF_WIDE").as_deref() == Ok("1") {
+			ns.retain(|n| *n <= 16 || [63, 64, 127, 128, 253, 254].contains(n));
+		}
 		let sys = Flat(MSys {
 			name: format!("{name}/deviation/n={min}..={maxn}"),
 			spec: spec(name),
@@ -174,6 +177,30 @@ fn main() {
 		});
 		let k = if thorough { 2 } else { 1 };
 		h.go(&sys, &Limits::deviation(k, 2 * maxn as u32 + 4).wall_secs(if thorough { 600 } else { 30 }).states(200_000_000), true);
+	}
+	// wide period types (C20): window lengths beyond 255
+	if (PeriodType::MAX as u64) > 255 {
+		for name in VV_SUBJECTS {
+			let mut ns: Vec<usize> = vec![255, 256, 257, 300, 1000];
+			if std::env::var("VERIF_WIDE").as_deref() == Ok("2") {
+				ns.push(4096);
+			}
+			let sys = Flat(MSys {
+				name: format!("{name}/deviation/wide-lengths"),
+				spec: spec(name),
+				params: ns.iter().map(|n| Params::N(*n as PeriodType)).collect(),
+				v0s: vals(&[1.0]),
+				alphabet: vals(&[1.0, -3.0, alpha::big() as ValueType]),
+				mk_ref: mk_ref(name),
+				shape: Shape::Flat,
+				span: n_of,
+				keyed: false,
+				positions: Some(|n| vec![0, n as u32, n as u32 + 1]),
+				check_peek: true,
+				extra: None,
+			});
+			h.go(&sys, &Limits::deviation(1, 9000).wall_secs(120).states(200_000_000), true);
+		}
 	}
 	// (c) Conv: weight vectors
 	{
